@@ -238,8 +238,55 @@ def _loopback(ctx, ntmod, wsdimpl, frandom):
             ctx.violation(f'loopback/{kind}/foreign-dispatch-count',
                           {'handled': wsd_rec.handled, 'expected': 'exactly once'},
                           case={'kind': 'sender', 'sender': kind})
+    _loopback_window(ctx, ntmod, wsdimpl, frandom)
     ctx.assumptions.append('clock fixed at t=1000.0 s; sockets replaced by None (no datagram leaves the process)')
     ctx.assumptions.append('float tolerance 1e-6 s on the doubling rule, 1e-9 s on window bounds')
+
+
+def _loopback_window(ctx, ntmod, wsdimpl, frandom):
+    """Own ids stay remembered while fewer than maxlen newer ids arrived - also when the id memory is already full."""
+    from mcx.choice import Chooser
+    nt0 = _mk_nt(ntmod, _RecordingWsd())
+    maxlen = nt0._known_message_ids.maxlen or 200
+    template = _mk_message(wsdimpl)
+    tid = template.p_msg.header_info_block.MessageID
+    tbytes = template.serialize()
+    peer = ('10.0.0.9', 4444)
+
+    def foreign(i):
+        return tbytes.replace(tid.encode(), f'urn:uuid:00000000-0000-0000-0000-{i:012d}'.encode())
+
+    for before in ctx.rotate([0, 1, maxlen - 1, maxlen, maxlen + 3]):
+        for after in (0, 1, 2, 5, maxlen - 1):
+            rec = _RecordingWsd()
+            nt = _mk_nt(ntmod, rec)
+            frandom.chooser = Chooser([])
+            frandom.calls = []
+            script = [(peer, foreign(i)) for i in range(before)]
+            nt._read_queue = _ScriptedQueue(nt, script)
+            nt._run_q_read()
+            own = _mk_message(wsdimpl)
+            own_id = own.p_msg.header_info_block.MessageID
+            nt.add_outbound_message(own, '239.255.255.250', 3702, ntmod.MULTICAST_REPEAT_PARAMS)
+            own_bytes = own.serialize()
+            script = [(peer, foreign(10_000 + i)) for i in range(after)] + [(peer, own_bytes), (peer, own_bytes)]
+            nt._quit_recv_event.clear()
+            nt._read_queue = _ScriptedQueue(nt, script)
+            nt._run_q_read()
+            ctx.transition(before + after + 2)
+            ctx.trace()
+            ctx.evals()
+            handled = [mid for _, mid in rec.handled]
+            ctx.state(('window', before, after, own_id in handled))
+            ctx.outcome('loopback-window:own-dispatched' if own_id in handled else 'loopback-window:own-ignored')
+            if own_id in handled:
+                ctx.violation(f'loopback-window/own-message-dispatched/known-before={before}/newer={after}',
+                              {'remembered_ids': maxlen, 'foreign_ids_before_send': before, 'newer_foreign_ids': after},
+                              case={'kind': 'sender', 'sender': 'window'})
+            if len(handled) != before + after:
+                ctx.violation(f'loopback-window/foreign-dispatch-count/known-before={before}/newer={after}',
+                              {'dispatched': len(handled), 'expected': before + after},
+                              case={'kind': 'sender', 'sender': 'window'})
 
 
 def replay(ctx, case):
